@@ -14,7 +14,7 @@ TOOLS = os.path.join(VERIF, 'tools')
 LIB = os.path.join(VERIF, 'lib')
 CLANG = 'clang++-14'
 CLANG_FLAGS = ['-std=c++20', '-DNDEBUG', '-O0', '-g', '-fno-discard-value-names', '-S', '-emit-llvm', '-Xclang', '-disable-O0-optnone']
-CLANG_FLAGS = ['-std=c++20', '-DNDEBUG', '-O0', '-g', '-fno-discard-value-names', '-S', '-emit-llvm']
+CLANG_FLAGS = ['-std=c++20', '-DNDEBUG', '-O0', '-g', '-fstandalone-debug', '-fno-discard-value-names', '-S', '-emit-llvm']
 CBMC_DEFAULT = ['--no-malloc-may-fail', '--no-signed-overflow-check', '--no-pointer-primitive-check']
 
 class Undecided(Exception):
@@ -69,6 +69,7 @@ def run_unit(prop, u, tier, scratch, keep=False):
         for k, v in u.get('names_opt', {}).items(): cmd += ['--name-opt', '%s=%s' % (k, v)]
         for k, v in u.get('types', {}).items(): cmd += ['--type', '%s=%s' % (k, v)]
         for k, v in u.get('globals', {}).items(): cmd += ['--global', '%s=%s' % (k, v)]
+        for k, v in u.get('ptypes', {}).items(): cmd += ['--ptype', '%s=%s' % (k, v)]
         r = sh(cmd, timeout=300)
         res['cmds'].append('ir2c ' + ' '.join(cmd[3:]))
         if r['rc'] != 0:
